@@ -306,7 +306,8 @@ Proof.
       * split; [|split; [|split]].
         -- exists jobs. split; [apply Permutation_refl|]. eapply Forall2_imp; [|exact Hrows]. intros j r. apply shows_cells.
         -- apply header_has_id.
-        -- exists j0. split; [exact Hj0|]. fold k. rewrite Ek. split; [intros c Hc'; right; exact Hc'|intros c Hc'; exact Hc'].
+        -- exists j0, Scalar. split; [exact Hj0|]. split; [left; fold k; rewrite Ek; reflexivity|].
+           split; [intros c Hc'; right; exact Hc'|intros c Hc'; exact Hc'].
         -- apply pareto_spec_trivial. rewrite objcols_header. cbn. lia.
       * eapply Forall2_imp; [|exact Hrows]. intros j r. apply shows_cells.
       * exists j0. split; [exact Hj0|left; reflexivity].
@@ -328,7 +329,7 @@ Proof.
       * split; [|split; [|split]].
         -- exists jobs. split; [apply Permutation_refl|exact Hcells].
         -- apply in_or_app. left. apply header_has_id.
-        -- exists j0. split; [exact Hj0|]. fold k. rewrite Ek. split.
+        -- exists j0, (Vec m). split; [exact Hj0|]. split; [left; fold k; rewrite Ek; reflexivity|]. split.
            ++ intros c Hc'. apply in_app_or in Hc' as [Hc'|[<-|[]]]; [right; exact Hc'|left; reflexivity].
            ++ intros c Hc'. apply in_or_app. left. exact Hc'.
         -- intros _. split; [|split; [|split]].
